@@ -222,16 +222,18 @@ class ProblemTap(ProblemWrapper):
         return ret
 
 
-class StatsProblemTap(StatsGatheringProblem):
-    """Top tap used when the user's top layer is a StatsGatheringProblem, so that
-    ``isinstance(level.problem, StatsGatheringProblem)`` in summary() keeps working."""
+class _TopTapMixin:
+    """Top-of-stack tap that is an instance of the *same class* as the user's top layer (so that isinstance
+    checks made by pyhms on ``level.problem`` see what they would see without the simulator).  It carries no
+    state of that class: every attribute it does not have itself is read from the real layer underneath."""
 
-    def __init__(self, inner, key, stack_id, pos, top):
-        ProblemWrapper.__init__(self, inner)
-        self.key = key
-        self.stack_id = stack_id
-        self.pos = pos
-        self.top = top
+    def _tap_init(self, inner, key, stack_id, pos, top):
+        d = self.__dict__
+        d["_inner"] = inner
+        d["key"] = key
+        d["stack_id"] = stack_id
+        d["pos"] = pos
+        d["top"] = top
 
     def evaluate(self, phenome, *a, **k):
         w = _WORLDS[self.key]
@@ -239,6 +241,33 @@ class StatsProblemTap(StatsGatheringProblem):
         ret = self._inner.evaluate(phenome, *a, **k)
         w.tap_exit(self, tok, phenome, ret)
         return ret
+
+    def worse_than(self, a, b):
+        return self._inner.worse_than(a, b)
+
+    def equivalent(self, a, b):
+        return self._inner.equivalent(a, b)
+
+    @property
+    def bounds(self):
+        return self._inner.bounds
+
+    @property
+    def maximize(self):
+        return self._inner.maximize
+
+    def __getattr__(self, name):
+        if name in ("_inner", "key", "stack_id", "pos", "top") or name.startswith("__"):
+            raise AttributeError(name)
+        return getattr(self.__dict__["_inner"], name)
+
+    def __str__(self):
+        return str(self._inner)
+
+
+class StatsProblemTap(_TopTapMixin, StatsGatheringProblem):
+    def __init__(self, inner, key, stack_id, pos, top):
+        self._tap_init(inner, key, stack_id, pos, top)
 
     @property
     def n_evaluations(self):
@@ -252,8 +281,57 @@ class StatsProblemTap(StatsGatheringProblem):
     def duration_stats(self):
         return self._inner.duration_stats
 
-    def __str__(self):
-        return str(self._inner)
+
+class CountingProblemTap(_TopTapMixin, EvalCountingProblem):
+    def __init__(self, inner, key, stack_id, pos, top):
+        self._tap_init(inner, key, stack_id, pos, top)
+
+    @property
+    def n_evaluations(self):
+        return self._inner.n_evaluations
+
+
+class CutoffProblemTap(_TopTapMixin, EvalCutoffProblem):
+    def __init__(self, inner, key, stack_id, pos, top):
+        self._tap_init(inner, key, stack_id, pos, top)
+
+    @property
+    def n_evaluations(self):
+        return self._inner.n_evaluations
+
+
+class PrecisionProblemTap(_TopTapMixin, PrecisionCutoffProblem):
+    def __init__(self, inner, key, stack_id, pos, top):
+        self._tap_init(inner, key, stack_id, pos, top)
+
+    @property
+    def n_evaluations(self):
+        return self._inner.n_evaluations
+
+
+class FunctionProblemTap(_TopTapMixin, FunctionProblem):
+    """Top tap over a bare FunctionProblem (a level without any wrapper)."""
+
+    def __init__(self, inner, key, stack_id, pos, top):
+        self._tap_init(inner, key, stack_id, pos, top)
+
+
+TOP_TAP_CLASSES = (StatsProblemTap, CountingProblemTap, CutoffProblemTap, PrecisionProblemTap, FunctionProblemTap)
+
+
+def top_tap_class(layer):
+    t = type(layer)
+    if t is StatsGatheringProblem:
+        return StatsProblemTap
+    if t is EvalCutoffProblem:
+        return CutoffProblemTap
+    if t is PrecisionCutoffProblem:
+        return PrecisionProblemTap
+    if t is EvalCountingProblem:
+        return CountingProblemTap
+    if t is FunctionProblem:
+        return FunctionProblemTap
+    return ProblemTap
 
 
 class GscTap(GlobalStopCondition):
@@ -410,23 +488,27 @@ class SimDemeTree(DemeTree):
         super().__init__(config)
         w.on_tree_constructed(self)
 
-    def run_step(self):
+    # (the overrides pass arguments and return values through untouched: a changed pyhms may use them)
+    def run_step(self, *a, **k):
         w = _WORLDS[self._sim_key]
         w.on_step_begin(self)
-        super().run_step()
+        ret = super().run_step(*a, **k)
         w.on_step_end(self)
+        return ret
 
-    def run_metaepoch(self):
+    def run_metaepoch(self, *a, **k):
         w = _WORLDS[self._sim_key]
         w.on_metaepoch_begin(self)
-        super().run_metaepoch()
+        ret = super().run_metaepoch(*a, **k)
         w.on_metaepoch_end(self)
+        return ret
 
-    def run_sprout(self):
+    def run_sprout(self, *a, **k):
         w = _WORLDS[self._sim_key]
         w.on_sprout_begin(self)
-        super().run_sprout()
+        ret = super().run_sprout(*a, **k)
         w.on_sprout_end(self)
+        return ret
 
 
 # --------------------------------------------------------------------------------------
@@ -680,9 +762,8 @@ class World:
                 lvl.problem = seen[id(p)][0]
                 self.level_stack.append(seen[id(p)][1])
                 continue
-            if isinstance(p, (ProblemTap, StatsProblemTap)):
-                self.level_stack.append(p.stack_id)
-                continue
+            if isinstance(p, (ProblemTap,) + TOP_TAP_CLASSES) and "stack_id" in p.__dict__:
+                raise HarnessError("a problem stack instrumented by another world was passed in")
             stack_id = len(self.stacks)
             top = self._instrument_stack(p, stack_id)
             seen[id(p)] = (top, stack_id)
@@ -695,25 +776,31 @@ class World:
             if ea is not None and not isinstance(ea, EngineTapFactory):
                 lvl.ea_class = EngineTapFactory(ea, key)
         mech = config.sprout_mechanism
-        if mech is not None and not isinstance(mech, MechanismTap):
-            if not isinstance(mech.candidates_generator, GeneratorTap):
-                mech.candidates_generator = GeneratorTap(mech.candidates_generator, key)
-            mech.deme_filter_chain = [
-                f if isinstance(f, FilterTap) else FilterTap(f, key, "deme", i)
-                for i, f in enumerate(mech.deme_filter_chain)
-            ]
-            mech.tree_filter_chain = [
-                f if isinstance(f, FilterTap) else FilterTap(f, key, "tree", i)
-                for i, f in enumerate(mech.tree_filter_chain)
-            ]
-            config.sprout_mechanism = MechanismTap(mech, key)
+        if mech is not None:
+            # a mechanism object may legally be shared by several trees (test/config.py does it): taps that are
+            # already there are re-keyed to this world instead of being stacked
+            real = mech.inner if isinstance(mech, MechanismTap) else mech
+            if isinstance(real.candidates_generator, GeneratorTap):
+                real.candidates_generator.key = key
+            else:
+                real.candidates_generator = GeneratorTap(real.candidates_generator, key)
+            for chain_name in ("deme_filter_chain", "tree_filter_chain"):
+                chain = []
+                for i, f in enumerate(getattr(real, chain_name)):
+                    if isinstance(f, FilterTap):
+                        f.__dict__["key"] = key
+                        chain.append(f)
+                    else:
+                        chain.append(FilterTap(f, key, chain_name.split("_")[0], i))
+                setattr(real, chain_name, chain)
+            config.sprout_mechanism = MechanismTap(real, key)
         self.config = config
 
     def _instrument_stack(self, top_problem, stack_id):
         # collect layers top -> bottom
         layers = []
         p = top_problem
-        while isinstance(p, ProblemWrapper):
+        while isinstance(p, ProblemWrapper) and not isinstance(p, FunctionProblem):
             layers.append(p)
             p = p._inner
         if not isinstance(p, FunctionProblem):
@@ -733,7 +820,7 @@ class World:
             layer._inner = tap
             below = layer
             pos += 1
-        cls = StatsProblemTap if isinstance(below, StatsGatheringProblem) else ProblemTap
+        cls = top_tap_class(below)
         top = cls(below, self.key, stack_id, pos, True)
         taps.append(top)
         self.stacks.append({"layers": layers, "taps": taps, "fnp": fnp, "otap": fnp.fitness_function,
